@@ -130,6 +130,58 @@ def case_bam(run, i):
                  sample={"contigs": contigs, "n_reads": n_reads, "bed_head": bed[:4], "reads_head": reads[:2]} if i % 23 == 0 else None)
 
 
+def _n_wide(tier):
+    return 16 if tier == "quick" else 120
+
+
+def case_wide(run, i):
+    """A chromosome-sized, thinly covered contig with bins from one base to tens of megabases: depths far below one read per
+    million bases are still depths (log2 below -20), only a bin no counted read overlaps is the null value."""
+    import cnvlib.coverage as C
+    rng = run.rng("wide", i)
+    style = i % 3
+    wide = int(rng.integers(120_000_000, 250_000_000))      # human chromosome sized: one read in a whole-chromosome bin is a depth below 2^-20
+    contigs = [(["chr1", "1", "X"][style], wide), (["chr2", "2", "7"][style], int(rng.integers(800, 3000)))]
+    n_wide, n_short = int(rng.choice([1, 1, 2, 3, 30])), int(rng.integers(0, 300))
+    reads = SB.gen_reads(rng, [contigs[0]], n_wide, indels=False) + [dict(r, tid=1) for r in SB.gen_reads(rng, [contigs[1]], n_short, indels=False)]
+    reads.sort(key=lambda r: (r["tid"], r["pos"]))
+    rows = [(contigs[0][0], 0, wide), (contigs[0][0], 0, wide // 2), (contigs[0][0], wide // 2, wide)]
+    for _ in range(int(rng.integers(3, 12))):
+        s = int(rng.integers(0, wide - 1))
+        rows.append((contigs[0][0], s, min(wide, s + int(rng.choice([1, 100, 10_000, 1_500_000, 40_000_000, 110_000_000])))))
+    for r in reads[: 5]:
+        if r["tid"] == 0:
+            rows.append((contigs[0][0], max(0, r["pos"] - 3_000_000), min(wide, r["pos"] + 3_000_000)))     # a wide bin around a lone read
+    rows.sort(key=lambda t: (t[1], t[2]))
+    rows += [(contigs[1][0], 0, contigs[1][1]), (contigs[1][0], 10, 200)]
+    ncols = [3, 4][i % 2]
+    bed = [[c, str(s), str(e)] + ([f"W{k}"] if ncols == 4 else []) for k, (c, s, e) in enumerate(rows)]
+    d = os.path.join(run.workdir, f"wide{run.shard}_{i}")
+    os.makedirs(d, exist_ok=True)
+    bam, bedp = os.path.join(d, "S.bam"), os.path.join(d, "regions.bed")
+    with run.monitor_scope():
+        SB.write_bam(bam, contigs, reads)
+    with open(bam + ".truth.json", "w") as fh:
+        json.dump({"contigs": contigs, "reads": reads, "indels": False}, fh)
+    with open(bedp, "w") as fh:
+        for f in bed:
+            fh.write("\t".join(f) + "\n")
+    run.begin_case("wide", i, cls="wide", contigs=contigs, n_reads=len(reads), n_bed=len(bed))
+    for by_count in (False, True):
+        for q in (0, int(rng.choice(CUTOFFS))):
+            for procs, chunk in ((1, 5000), (2, 4)):
+                covmon.CHUNK["size"] = chunk
+                run.case["config"] = {"by_count": by_count, "min_mapq": q, "processes": procs, "chunk_size": chunk}
+                try:
+                    C.do_coverage(bedp, bam, by_count, q, procs)
+                except Exception:
+                    pass
+    covmon.CHUNK["size"] = 5000
+    run.__dict__.get("_cov_hist", {}).clear()
+    shutil.rmtree(d, ignore_errors=True)
+    run.end_case(fp=rt.fingerprint([contigs, rows[:20], [(r_["pos"], r_["flag"]) for r_ in reads[:40]]], 12), nontrivial=bool(reads))
+
+
 def _n_cli(tier):
     return 8 if tier == "quick" else 60
 
@@ -188,10 +240,10 @@ def case_cli(run, i):
     run.end_case(fp=rt.fingerprint([contigs, bed[:20], argv[3:]], 12), nontrivial=True)
 
 
-WORKLOADS = {"bam": (_n, case_bam), "cli": (_n_cli, case_cli)}
+WORKLOADS = {"bam": (_n, case_bam), "wide": (_n_wide, case_wide), "cli": (_n_cli, case_cli)}
 _Q = {"coverage.do_coverage|held": 250, "coverage.do_coverage[same-table-any-schedule]|held": 150, "extra:bins-with-coverage:pileup": 2000,
       "extra:bins-with-coverage:count": 2000, "extra:calls-with-several-chunks": 40, "extra:calls-completing-out-of-submission-order": 5,
-      "cli.coverage[file]|held": 5, "cli.coverage[plumbing]|held": 5}
+      "cli.coverage[file]|held": 5, "cli.coverage[plumbing]|held": 5, "extra:bins-covered-below-2^-20:pileup": 5, "extra:bins-covered-below-2^-20:count": 5}
 QUOTAS = {"quick": _Q, "thorough": {k: v * 8 for k, v in _Q.items()}}
 
 
